@@ -5,6 +5,8 @@ import TTV.Lemmas.ContentUtf8
 import TTV.Lemmas.ContentStream
 import TTV.Lemmas.ContentCT
 import TTV.Lemmas.ContentCopy
+import TTV.Lemmas.ContentSkel
+import TTV.Generated.ContentSrc
 /-! # C16 — Content is lossless and independent of chunking
 
 Property theorems (kept apart from the model `TTV/Model/Content.lean`; helper lemmas in `TTV/Lemmas/Content*.lean`).
@@ -306,5 +308,48 @@ theorem holds_model_partial (i : Input) (hw : i.wf = true) (hf : noFinding i = t
     have := C16_ct_roundtrip_partial ct hw hf'
     simp [holds, clauses, this, cShape, cBytes, cEq, cText, cJson, cChunking, cCharset, cChunkSizes, cChunkConcat, cLazy, cCtRoundtrip, cSnapshot]
   | _ => exact holds_model_no_ctype _ hw (by intro ct h; cases h)
+
+/-! ## tie to the source
+`TTV.Generated.ContentSrc` is produced by `harness/pycontent2lean.py` from `testtools/content.py`, `content_type.py` and
+`testresult/real.py` on every run; `TTV.ContentSkel.*I` interpret that data over the model. -/
+
+/-- the model's `iterText` is the interpretation of the statements of `Content._iter_text` as found in the source — the
+encoding looked up with default ISO-8859-1, a NEW incremental decoder made in this very call (so nothing survives from an
+earlier use of the Content), one piece per chunk, the final flush, its result yielded when non-empty — for every decoder
+and every chunking -/
+theorem C16_src_iter_text {σ : Type} (D : Decoder σ) (chunks : List Bytes) :
+    ContentSkel.iterTextI D chunks Generated.ContentSrc.iterText = some (iterText D chunks)
+      ∧ ContentSkel.defaultOf Generated.ContentSrc.iterText = some .iso8859_1 := by
+  have e : Generated.ContentSrc.iterText = ContentSkel.refIterText := by decide
+  rw [e]; exact ⟨ContentSkel.iterTextI_ref D chunks, ContentSkel.defaultOf_ref⟩
+
+/-- `content_from_reader` as found in the source: with `buffer_now` the reader is evaluated once, at construction, into a LIST
+of its chunks which every later `iter_bytes()` replays (as `streamModel` does); without it the reader is evaluated each time -/
+theorem C16_src_content_from_reader (bufferNow : Bool) (cs : List Bytes) :
+    ContentSkel.readerI bufferNow cs Generated.ContentSrc.contentFromReader .evaluateEachTime
+      = some (if bufferNow then .buffered cs else .evaluateEachTime) := by
+  have e : Generated.ContentSrc.contentFromReader = ContentSkel.refReader := by decide
+  rw [e]; exact ContentSkel.readerI_ref bufferNow cs
+
+/-- the model's `chunks` is the interpretation of `_iter_chunks` as found in the source: the optional seek first, one read,
+then `while chunk: yield chunk; chunk = read()` — for every chunk size, short-read plan and remaining bytes -/
+theorem C16_src_iter_chunks (n : Nat) (caps : List Nat) (rem : Bytes) :
+    ContentSkel.chunksI Generated.ContentSrc.iterChunks n caps rem = some (chunks n caps rem) := by
+  have e : Generated.ContentSrc.iterChunks = ContentSkel.refChunks := by decide
+  rw [e]; exact ContentSkel.chunksI_ref n caps rem
+
+/-- the model's `render` (with `quoteValue`) is the interpretation of `ContentType.__repr__` and `_quote` as found in the
+source: `type/subtype`, then — only when there are parameters — `"; "` and the sorted items `k="<v with \ and " escaped>"`
+joined by `"; "` -/
+theorem C16_src_repr (ct : CT) : ContentSkel.renderI Generated.ContentSrc.reprCT ct = render ct := by
+  have e : Generated.ContentSrc.reprCT = ContentSkel.refRepr := by decide
+  rw [e]; exact ContentSkel.renderI_ref ct
+
+/-- the model's `fixCharset` is the interpretation of the work-around at the end of `_make_content_type` as found in the
+source: only the `charset` parameter is cut, at its first comma -/
+theorem C16_src_charset_fix (ps : List (Text × Text)) :
+    ContentSkel.fixI Generated.ContentSrc.charsetFix ps = fixCharset ps := by
+  have e : Generated.ContentSrc.charsetFix = ContentSkel.refFix := by decide
+  rw [e]; exact ContentSkel.fixI_ref ps
 
 end TTV.Props.C16
